@@ -1,5 +1,5 @@
 import DracoModel.Proto
-import DracoModel.SeqDecoder
+import DracoModel.Decoder
 import DracoModel.Spec
 import Ops.Metadata
 /- op handlers for whole-stream decoding -/
@@ -83,7 +83,29 @@ def e2eOp (args : List String) : String :=
     s!"{mdec} | {mall} | {msub} | {rt} | {skAll} | {skSub}"
   | _ => "bad-op"
 
+/-- ebtrace <skip> <hex> -> <status> <reached-branch tags of the model, comma separated> -/
+def ebtraceOp : List String → String
+  | [skip, h] =>
+    let bs := bytesOfHex h
+    let r := decodeGeometry { skip := skipOf skip } { rest := bs }
+    let st := match r with
+      | (some _, _) => "ok"
+      | (none, s) => match s.status with
+        | .unsupported w => "unsupported:" ++ w.replace " " "_"
+        | .unknownVersion => "err-version"
+        | _ => "err"
+    let tags := r.2.tags.reverse.eraseDups
+    s!"{st} {if tags.isEmpty then "-" else ",".intercalate tags}"
+  | _ => "bad-op"
+
+/-- e2et …: `e2e` followed by ` | trace=<status> <reached-branch tags of the model's plain decode>` -/
+def e2etOp (args : List String) : String :=
+  match splitOn2 "--" args with
+  | opts :: _ =>
+    e2eOp args ++ " | trace=" ++ ebtraceOp ["-", (kv opts "hex").getD "-"]
+  | _ => "bad-op"
+
 def codecOps : List (String × (List String → String)) :=
-  [("dec", decOp), ("e2e", e2eOp)]
+  [("dec", decOp), ("e2e", e2eOp), ("ebtrace", ebtraceOp), ("e2et", e2etOp)]
 
 end Draco.Ops
